@@ -186,6 +186,15 @@ func configure(g *gen) {
 			{Callee: "handlerFuncs[]", Values: []string{"(GoRt.kvhGet handlerFuncs %1).1", "(GoRt.kvhGet handlerFuncs %1).2"}, Ts: []T{{"opaque", "List Nat"}, tBool}},
 			{Callee: "route.Use", Stmts: []string{"ev := ev ++ [GoRt.ResEv.use routeName %1]"}},
 		}})
+	// router.go `Controller`: one group (prefix, middleware) inside which the controller's `AddRoutes(r)` runs
+	add(FnSpec{Recv: "Router", Func: "Controller", Lean: "Router.Controller", NoRecv: true,
+		Prologue: []string{"let mut ev : List GoRt.ResEv := []"}, RetExtra: []string{"ev"}, RetExtraT: []string{"List GoRt.ResEv"},
+		Types: map[string]T{"rux.ControllerFace": {"opaque", "Nat"}, "[]rux.HandlerFunc": {"opaque", "List Nat"}},
+		Exts: []Ext{
+			{Callee: "$.Group", InlineArg: 2, Stmts: []string{"ev := ev ++ [GoRt.ResEv.groupEnter %1 %3]"}, After: []string{"ev := ev ++ [GoRt.ResEv.groupLeave]"}},
+			{Callee: "r", Value: "()", T: T{"opaque", "Unit"}}, // the router itself, handed to AddRoutes
+			{Callee: "controller.AddRoutes", Stmts: []string{"ev := ev ++ [GoRt.ResEv.addRoutes controller]"}},
+		}})
 	// router.go: the static-file registrations.  The router is the list of `GET(pattern, handler)` calls made on it;
 	// the handler closures and the net/http file servers they close over are opaque (their behaviour is the model's
 	// `Mount`, compared by the `static` engine)
